@@ -19,6 +19,7 @@ def enum_of(sadt):
     return bool(sadt) and (sadt.startswith("diplomat_core::hir::") or sadt.startswith("diplomat_tool::") or sadt.startswith("diplomat_core::ast::"))
 
 
+NARROWS = {}      # crate -> context.Narrow of the last inventory (call-site index)
 COVERED = set()   # (fn path, line) of panic-family macros judged by the arm inventory (selected by a real variant, or pure non_exhaustive absorbers)
 PANIC_MACROS = ("panic", "unreachable", "unimplemented", "todo", "assert", "assert_eq", "assert_ne")
 
@@ -27,14 +28,16 @@ def inventory(units, adts):
     """-> list of dict(fn, enum, values, macro, msg, loc)"""
     out = []
     COVERED.clear()
+    import context
     for unit in units:
+        nar = NARROWS[unit.crate] = context.Narrow(unit, adts)
         for f in unit.fn_list:
             if f.get("dk") == "Closure" or "hir" not in f:
                 continue
             path = C.norm_path(f["path"])
             if not in_scope(path) or f.get("exp"):
                 continue
-            for n in C.walk(C.fn_body(f)):
+            for n, cstack in C.with_conditions(C.fn_body(f)):
                 mt = None
                 if n.get("k") == "match" and enum_of(n.get("sadt")):
                     mt = n
@@ -69,8 +72,13 @@ def inventory(units, adts):
                     for x in C.walk(arms[i]["b"]):
                         if x.get("k") == "macro" and x.get("name") in PANIC_MACROS:
                             COVERED.add((path, x.get("ln")))
+                # variants that can reach this match at all: enclosing arms on the same place, and (for a place rooted in a parameter) the
+                # arms under which the function is called -- a catch-all arm of an extracted helper is selected by those only
+                allowed = nar.allowed(f, mt, cstack) if mt.get("s") is not None else None
                 sel = {}
                 for v, hits in table:
+                    if allowed is not None and v.variant is not None and v.variant not in allowed:
+                        continue
                     for i, cond in hits:
                         if i in pan:
                             sel.setdefault(i, []).append((v.show(), cond))
@@ -103,11 +111,11 @@ def dart_alloc_rules(ck, rule, facts):
             elif x.get("k") == "match":
                 pats = []
                 for arm in x["arms"]:
-                    if (arm["pat"].get("v") or "").split("::")[-1] == "DiplomatOption" and any(z.get("k") == "call" and (C.callee(z) or "").endswith("alloc_name") for z in C.walk(arm["b"])):
+                    if (arm["pat"].get("v") or "").split("::")[-1] == "DiplomatOption" and any(z.get("k") in ("call", "mcall") and (C.callee(z) or "").endswith("alloc_name") for z in C.walk(arm["b"])):
                         ok_rec = True
                 continue
             for p_ in pats:
-                if (p_.get("v") or "").split("::")[-1] == "DiplomatOption" and any(z.get("k") == "call" and (C.callee(z) or "").endswith("alloc_name") for z in C.walk(body_)):
+                if (p_.get("v") or "").split("::")[-1] == "DiplomatOption" and any(z.get("k") in ("call", "mcall") and (C.callee(z) or "").endswith("alloc_name") for z in C.walk(body_)):
                     ok_rec = True
         rec_by_fn[C.norm_path(a_["path"]).split("::")[-2]] = ok_rec
     ck.expect(len(rec_by_fn) >= 2 and all(rec_by_fn.values()), rule, "dart::alloc_name/sees-through-option", str(rec_by_fn),
@@ -161,6 +169,19 @@ def run(ck, facts):
                 seen.add(cands[0])
                 ck.bad("R1", cands[0], "%s! reachable for accepted input: %s" % (e["macro"], t2.get("why", "")), e["loc"])
                 continue
+            if t2 and t2["class"] == "guarded":
+                # a site-specific argument moves with the arm only into a private helper of the triaged function: every call of the helper sits in that
+                # function, so no value reaches the helper's match that did not reach the original one
+                nar = NARROWS.get(e["fn"].split("::")[0])
+                orig_fn = cands[0].rsplit("/", 2)[0]
+                sites = nar.sites().get(e["fn"], []) if nar else []
+                # (the triaged function itself, or -- when that was a nested fn which is gone -- the function it was nested in; recursion aside)
+                homes = {orig_fn} if (nar and orig_fn in nar.unit.norm) else {orig_fn, orig_fn.rsplit("::", 1)[0]}
+                if sites and e["fn"] not in nar._escapes and all(C.norm_path(g_["path"]) in homes | {e["fn"]} for g_, _, _ in sites) \
+                        and any(C.norm_path(g_["path"]) in homes for g_, _, _ in sites):
+                    seen.add(cands[0])
+                    ck.ok("R1", k, "guarded (triaged as %s, moved into a helper called only from there): %s" % (cands[0], t2.get("why", "")), e["loc"])
+                    continue
         if not t:
             ck.bad("R1", k, "untriaged %s! arm (\"%s\") selected by %s::%s — can an accepted bridge reach it?" % (e["macro"], e["msg"], e["enum"], e["values"]), e["loc"])
             continue
@@ -197,18 +218,21 @@ def run(ck, facts):
         by_loose_c.setdefault(loose_c(k_), []).append(k_)
     for k, locs_ in sorted(found_c.items()):
         t = cspec.get(k)
+        extra_ = 0
         if not t:
-            cands = [c for c in by_loose_c.get(loose_c(k), []) if c not in found_c]
+            cands = [c for c in by_loose_c.get(loose_c(k), []) if c not in found_c] or [c for c in by_loose_c.get(loose_c(k), []) if cspec[c]["class"] != "finding"]
             if cands:
                 t = cspec[cands[0]]
                 if t["class"] == "finding":
                     k = cands[0]
+                # some of the triaged sites may have stayed under the old key: the count covers both places
+                extra_ = len(found_c.get(cands[0], []))
         if not t:
             ck.bad("R1", "cond:" + k, "untriaged %s! site that is not selected by an enum variant: which accepted bridge / configuration reaches it?" % k.split("/")[1], locs_[0])
         elif t["class"] == "finding":
             ck.bad("R1", "cond:" + k, "reachable for accepted input: %s" % t.get("why", ""), locs_[0])
         else:
-            ck.expect(len(locs_) <= t.get("count", 1), "R1", "cond:" + k, "%s: %s" % (t["class"], t.get("why", ""))[:200], "%d sites, %d triaged" % (len(locs_), t.get("count", 1)), locs_[0])
+            ck.expect(len(locs_) + extra_ <= t.get("count", 1), "R1", "cond:" + k, "%s: %s" % (t["class"], t.get("why", ""))[:200], "%d sites, %d triaged" % (len(locs_), t.get("count", 1)), locs_[0])
     if len(found_c) < 20:
         ck.bad("R1", "cond-floor", "only %d non-arm panic sites found (the extractor lost sight of the backends)" % len(found_c))
 
@@ -387,8 +411,9 @@ def run(ck, facts):
         mt = next((n for n in C.walk(C.fn_body(conv)) if n.get("k") == "match" and (n.get("sadt") or "").endswith("hir::types::Type")), None)
         if mt:
             for arm in mt["arms"]:
+                # in the arm itself or in the helper the arm delegates to (the recursive dispatcher itself is not a helper)
                 needs = any(x.get("k") == "mcall" and x.get("m") in ("unwrap", "expect", "unwrap_or_else") and C.strip(x["recv"]).get("k") == "local" and C.strip(x["recv"]).get("n") == "alloc"
-                            for x in C.walk(arm["b"]))
+                            for x in C.walk_inl(tool, arm["b"], 1, exclude=[conv["path"]], max_nodes=1500))
                 if needs:
                     pv = arm["pat"]
                     for v in [pv.get("v")] + [a_.get("v") for a_ in pv.get("alts", []) or []]:
